@@ -357,6 +357,7 @@ def job_probe(arg):
         model = M({"features": [], "fixed_effects": {}})
         a = p / 1000
         detail = None
+        mn = None
         with SplitRecorder() as rec:
             try:
                 mn = model.get_minimum_reporting_units(a)
@@ -375,7 +376,7 @@ def job_probe(arg):
                 "n": n,
                 "dup": False,
                 "outcome": outcome,
-                "mins": [_as_int(mn)] if outcome == "done" or rec.mins else [],
+                "mins": [_as_int(mn)] if mn is not None else [],
                 "splits": [{k2: s[k2] for k2 in ("f100", "train", "cal")} for s in rec.split_records()],
                 "detail": detail,
             }
